@@ -301,6 +301,86 @@ fn c07_k2_global_reject_then_event() {
     kani::cover!(f_x);
 }
 
+pub static F3: SymFilter = SymFilter::new();
+
+macro_rules! shape_event {
+    ($name:ident, $doc:expr, $build:expr, $n:expr) => {
+        #[doc = $doc]
+        #[kani::proof]
+        #[kani::unwind(4)]
+        #[kani::stub(std::rt::thread_cleanup, noop)]
+        #[kani::stub(core::fmt::write, fmt_write_stub)]
+        #[kani::stub(std::collections::HashMap::clear, hm_clear)]
+        fn $name() {
+            vtable_hint();
+            let __stack = core::mem::ManuallyDrop::new($build);
+            let st = unsafe { crate::common::extend(&*__stack) };
+            {
+                let d = tracing_core::__verif::dispatch_unregistered(st);
+                core::mem::forget(tracing_core::dispatch::set_default(&d));
+            }
+            let (e1, _, _) = F1.havoc();
+            let (e2, _, _) = F2.havoc();
+            let (e3, _, _) = F3.havoc();
+            let m = ev_meta(3);
+            let cached = st.register_callsite(m);
+            assert!(f::bits() == 0);
+            emit_event(st, m, &cached);
+            assert!(ld(&L1.event) == e1 as usize);
+            assert!(ld(&L2.event) == e2 as usize);
+            if $n >= 3 { assert!(ld(&L3.event) == e3 as usize); }
+            assert!(f::bits() == 0);
+            // a second, independent emission
+            emit_event(st, m, &cached);
+            assert!(ld(&L1.event) == 2 * (e1 as usize));
+            assert!(ld(&L2.event) == 2 * (e2 as usize));
+            assert!(f::bits() == 0);
+            kani::cover!(e1 && !e2);
+            kani::cover!(!e1 && e2);
+        }
+    };
+}
+use tracing_subscriber::subscribe::CollectExt as CE;
+shape_event!(c07_k2_shape_three_layers, "three per-layer-filtered layers: each sees exactly its own filter's verdict, twice in a row",
+    CE::with(CE::with(CE::with(Registry::default(), (&L1).with_filter(&F1)), (&L2).with_filter(&F2)), (&L3).with_filter(&F3)), 3);
+shape_event!(c07_k2_shape_option, "a filtered layer wrapped in Some(..) next to a plain filtered layer",
+    CE::with(CE::with(Registry::default(), Some((&L1).with_filter(&F1))), (&L2).with_filter(&F2)), 2);
+shape_event!(c07_k2_shape_boxed, "a filtered layer behind Box<dyn Subscribe> next to a plain filtered layer",
+    CE::with(CE::with(Registry::default(), Subscribe::boxed((&L1).with_filter(&F1))), (&L2).with_filter(&F2)), 2);
+shape_event!(c07_k2_shape_vec, "two filtered layers inside one Vec",
+    CE::with(Registry::default(), vec![(&L1).with_filter(&F1), (&L2).with_filter(&F2)]), 2);
+shape_event!(c07_k2_shape_order_swapped, "the same two filtered layers stacked in the opposite order: the decision does not depend on the order of layers",
+    CE::with(CE::with(Registry::default(), (&L2).with_filter(&F2)), (&L1).with_filter(&F1)), 2);
+
+/// Filtered in Filtered: a layer with two per-layer filters attached sees an event iff BOTH accept it; a sibling
+/// layer is unaffected
+#[kani::proof]
+#[kani::unwind(4)]
+#[kani::stub(std::rt::thread_cleanup, noop)]
+#[kani::stub(core::fmt::write, fmt_write_stub)]
+#[kani::stub(std::collections::HashMap::clear, hm_clear)]
+fn c07_k2_shape_nested_filtered() {
+    vtable_hint();
+    let __stack = core::mem::ManuallyDrop::new(CE::with(
+        CE::with(Registry::default(), (&L1).with_filter(&F1).with_filter(&F2)), (&L3).with_filter(&F3)));
+    let st = unsafe { crate::common::extend(&*__stack) };
+    {
+        let d = tracing_core::__verif::dispatch_unregistered(st);
+        core::mem::forget(tracing_core::dispatch::set_default(&d));
+    }
+    let (e1, _, _) = F1.havoc();
+    let (e2, _, _) = F2.havoc();
+    let (e3, _, _) = F3.havoc();
+    let m = ev_meta(3);
+    let cached = st.register_callsite(m);
+    emit_event(st, m, &cached);
+    assert!(ld(&L1.event) == (e1 && e2) as usize);
+    assert!(ld(&L3.event) == e3 as usize);
+    assert!(f::bits() == 0);
+    kani::cover!(e1 && !e2 && e3);
+    kani::cover!(e1 && e2 && !e3);
+}
+
 #[kani::proof]
 #[kani::unwind(3)]
 #[kani::stub(std::rt::thread_cleanup, noop)]
